@@ -1253,6 +1253,10 @@ impl StateMachine for FileStateMachine {
                                 .as_ref()
                                 .expect("lease always initialized by NodeBuilder");
                             lease.register(key.clone(), *ttl);
+                        } else if let Some(ref lease) = self.lease {
+                            // A write without TTL replaces the key for good: an expiry left over
+                            // from an earlier write must not delete the new value later.
+                            lease.unregister(key);
                         }
                         results.push(ApplyResult::success(entry.index));
                     }
@@ -1281,6 +1285,9 @@ impl StateMachine for FileStateMachine {
                         });
                         if cas_success {
                             data.insert(key.clone(), (new_value.clone(), entry.term));
+                            if let Some(ref lease) = self.lease {
+                                lease.unregister(key);
+                            }
                         }
                     }
                 }
